@@ -399,7 +399,10 @@ class Names:
 
     def key(self, k):
         i = k.rfind("-")
-        addr, seq = k[:i], int(k[i + 1:])
+        try:
+            addr, seq = k[:i], int(k[i + 1:])
+        except ValueError:          # not "<address>-<decimal>": shows up as a key the model never holds
+            return 999, 0
         if addr.endswith(":8805"):
             p = self.peer_of_ip(addr[:-5])
             if p is not None:
